@@ -34,7 +34,7 @@ EXHAUSTIVE = {
              "targets 1..6^2 (mask drawn per case); pad / trim / pad-then-trim / trimmed_array_from: shapes 1..4^2 x kernels "
              "{1,3,5,7}^2; enlarge-then-shrink: shapes 1..4^2 x enlargements 0..3 per axis; zoom: every mask with H*W <= 7, "
              "buffer cycling 0,1,2 (negative buffers -1,-2 on every third); zoom geometry (mask properties and "
-             "zoomed_around_mask's mask with buffers cycling 0,1,-1,2,-2,0,-3) for the same masks; apply_mask: every mask with H*W <= 6 with kernel (3,3)",
+             "zoomed_around_mask's mask with buffers cycling 0,1,-1,2,-2,0,-3 on every second one) for the same masks; apply_mask: every mask with H*W <= 6 with kernel (3,3)",
     "thorough": "util resize: shapes 1..8^2 to targets 0..9^2; Array2D/Mask2D.resized_from: shapes 1..7^2 to targets 1..9^2; "
                 "pad/trim family: shapes 1..6^2 x kernels {1,3,5,7}^2; enlarge-then-shrink: shapes 1..6^2 x enlargements 0..4; "
                 "zoom: every mask with H*W <= 9 (each buffer 0,1,2 up to H*W <= 8, cycling above), zoom geometry for the same masks; apply_mask: every mask with H*W <= 8, kernels (3,3),(1,5),(5,3)",
@@ -170,8 +170,9 @@ def gen_inputs(tier, rng):
                 yield {"op": "zoom_region", "m": mk}
                 if not all(all(r) for r in mk) or i % 8 == 0:
                     yield {"op": "mask_zoom", "m": mk, "g": list(GEOMS[i % len(GEOMS)])}
-                    yield {"op": "zoom_geo", "m": mk, "v": values(h, w, rng), "g": list(GEOMS[(i // 3) % len(GEOMS)]),
-                           "b": [0, 1, -1, 2, -2, 0, -3][i % 7], "var": VARS[i % len(VARS)]}
+                    if big or i % 2 == 0:
+                        yield {"op": "zoom_geo", "m": mk, "v": values(h, w, rng), "g": list(GEOMS[(i // 3) % len(GEOMS)]),
+                               "b": [0, 1, -1, 2, -2, 0, -3][(i // 2) % 7], "var": VARS[i % len(VARS)]}
                     if i % 3 == 0: yield {"op": "zoom", "a": [values(h, w, rng, wide=True), mk], "b": -1 - (i // 3) % 2, "var": VARS[i % len(VARS)], "sc": SCS[i % 7]}
                 for b in ((0, 1, 2) if big and h * w <= 8 else (i % 3,)):
                     yield {"op": "zoom", "a": [values(h, w, rng, wide=True), mk], "b": b, "var": VARS[i % len(VARS)], "sc": SCS[i % 7]}
